@@ -47,6 +47,8 @@ def gen_cb(rng: Any, ids: list[int], depth: int, allow_service: bool, p_raise: f
     cb: dict[str, Any] = {"id": cid, "route": route, "kind": kind, "pass_exception": False, "steps": [], "raises": None, "children": [], "form": form}
     if route in ("direct", "resource") and rng.random() < 0.2:
         cb["from_child"] = True
+    if route == "shortcut" and rng.random() < 0.3:
+        cb["from_component"] = True
     if route == "resource":
         cb["ntypes"] = rng.choice([0, 1, 1, 2, 3])  # 0: type of the value; >1: one resource published under several types
     if route in ("direct", "shortcut"):
@@ -160,6 +162,7 @@ class Run:
         self.unrelated_ctx: Any = None
         self.other_ctx_calls = 0
         self.generator_based_awaitables = 0
+        self.from_component_registrations = 0
         self.gen_shapes: dict[str, int] = {}
         self.setup_registrations = 0
         self.from_child_registrations = 0
@@ -371,6 +374,18 @@ class Run:
                 async with Context():
                     self._register_simple(cb, route, during_teardown)
                 self.from_child_registrations += 1
+                return
+            if cb.get("from_component") and route == "shortcut" and not during_teardown:
+                # registered by a component while it starts (its current context is a component context, which hands the
+                # registration on to the context the tree is started in): a callback of that context like any other
+                from asphalt.core import Component, start_component
+
+                class Registering(Component):
+                    async def start(self_inner) -> None:  # noqa: N805
+                        self._register_simple(cb, route, during_teardown)
+
+                await start_component(Registering, timeout=None)
+                self.from_component_registrations += 1
                 return
             self._register_simple(cb, route, during_teardown)
             return
@@ -792,6 +807,8 @@ def features(run: Run) -> dict[str, int]:
                 inc("callback_form_unhashable_object")
     if any(byid[cid]["route"] == "resource" and byid[cid].get("ntypes", 0) > 1 for cid in order):
         inc("resource_route_multi_type")
+    if run.from_component_registrations:
+        inc("callbacks_registered_by_a_starting_component", run.from_component_registrations)
     if run.generator_based_awaitables:
         inc("callbacks_returning_a_generator_based_coroutine", run.generator_based_awaitables)
     if run.other_ctx_calls:
